@@ -29,7 +29,9 @@ RULE = (
     "functions whose snippets are missing (generator errors), snippet directories with >=2 invalid keys, and the "
     "repository's own fixtures (dev/test_data/main/<target>/expected/<case>, aas_core_meta.v3 in the thorough tier) plus three "
     "fixed regression inputs (constructor/property mismatch, malformed :attr: reference, invalid snippet keys) "
-    "x targets (rotating, all 8 in thorough) x configurations. Every (model, target) is run in (a) four batch child "
+    "x targets (rotating, all 8 in thorough) x configurations; plus a stream of schema-form models (192 quick / 2400 "
+    "thorough: hierarchies whose invariants are all in the forms the schema inference recognises, with tightenings "
+    "of inherited properties and chains of constrained primitives) for the jsonschema and xsd targets only. Every (model, target) is run in (a) four batch child "
     "processes with PYTHONHASHSEED 0..3 through main.main argv parsing (audit hook determines the files written), "
     "differing also in output path length, pre-populated output dir (noise incl. read-only files / stale output of "
     "another model / own previous output), on-disk creation order of the snippets (tmpfs lists in creation order) and "
@@ -162,9 +164,16 @@ def _opts(draw: Any, plain: bool = False) -> mmgen.Opts:
 
 
 @st.composite
-def cases(draw: Any) -> Dict[str, Any]:
-    kind = draw(st.sampled_from(["accepted"] * 4 + ["rejected"] * 3 + ["planted"] * 3 + ["impl-missing"] * 2 + ["snippet-errors"]))
-    o = _opts(draw, plain=(kind == "planted"))
+def cases(draw: Any, schema_only: bool = False) -> Dict[str, Any]:
+    """``schema_only``: accepted models whose invariants are all in the forms the schema inference recognises
+    (hierarchies with tightenings of inherited properties) - the input of the two schema targets."""
+    if schema_only:
+        kind = "accepted"
+        o = mmgen.Opts(max_classes=draw(st.integers(3, 6)), max_props=draw(st.integers(1, 3)), docs="none",
+                       invariants="schema", compatible_patterns=0.7, p_diamond=0.4, cp_weight=3, cp_chain=0.3)
+    else:
+        kind = draw(st.sampled_from(["accepted"] * 4 + ["rejected"] * 3 + ["planted"] * 3 + ["impl-missing"] * 2 + ["snippet-errors"]))
+        o = _opts(draw, plain=(kind == "planted"))
     spec = draw(mmgen.specs(o))
     n_props = sum(len(c.props) for c in spec.classes)
     if kind == "planted":
@@ -719,8 +728,16 @@ def shard(ctx: runner.Ctx) -> None:
     runner.hyp_run(cases(), drawn.append, 4 * n_gen, ctx.seed)
     drawn = drawn[3::4][:n_gen]
 
+    # schema-form models for the two schema targets only (cheap: batch children, no single-invocation runs)
+    schema_drawn = []  # type: List[Dict[str, Any]]
+    n_schema = ctx.n(192, 2_400)
+    runner.hyp_run(cases(schema_only=True), schema_drawn.append, 2 * n_schema, ctx.seed + 5)
+    schema_drawn = schema_drawn[1::2][:n_schema]
+
     # (case, target) units
     units = []  # type: List[Dict[str, Any]]
+    for i, c in enumerate(schema_drawn):
+        units.append({"case": c, "target": ("jsonschema", "xsd")[(i + ctx.shard) % 2], "fixture": None, "no_single": True})
     for i, c in enumerate(drawn):
         k = (i + ctx.shard) * (2 if ctx.quick else 8)
         targets = [sut.TARGETS[(k + d) % 8] for d in range(2 if ctx.quick else 8)]
@@ -784,7 +801,7 @@ def _explore(ctx: runner.Ctx, units: List[Dict[str, Any]], n_single: int, base: 
             big = u["fixture"] is not None and u["fixture"][1] == "aas_core_meta.v3"
             if big:
                 cfgs = batch_cfgs(c["orders"])[:3] + inproc_cfgs(c["orders"])[:3]
-            if singles_left > 0 and not big:
+            if singles_left > 0 and not big and not u.get("no_single"):
                 cfgs += single_cfgs(c["orders"])
                 singles_left -= 1
             jobs = [prepare(f"j{k}", cfg, case_dir, model, target, snippets, stale, shm) for k, cfg in enumerate(cfgs)]
